@@ -116,8 +116,9 @@ PROPS = {
         assumptions=["finite ordinates of magnitude <= 2^200", "rings are closed (first vertex = last vertex) for the area oracle"],
     ),
     "C16": dict(
-        modules=["GeomVerif.Properties.C16"],
-        n_quick=8000, n_thorough=120000, thorough_seeds=4, min_theorems=4,
+        modules=["GeomVerif.Properties.C16", "GeomVerif.Tie.CloneFresh"],
+        effects=True,
+        n_quick=8000, n_thorough=120000, thorough_seeds=4, min_theorems=6,
         rule="histories: build a value (Point, LineString, LinearRing, Polygon, MultiLineString, MultiPoint, MultiPolygon, Bounds incl. inverted "
              "dimensions, Coord; nil, empty-with-capacity and non-empty slices, half of them inside arrays with spare capacity, incl. the outer "
              "slice of MultiPolygon rows), Clone it, then 0..8 public mutations of the original or the clone (write an ordinate through "
@@ -126,7 +127,9 @@ PROPS = {
              "equal those of two independent values. non-trivial = history text longer than 24 characters",
         trusted_base=TB_COMMON + ["modelled: derived.gen.go deep copy (make+copy per non-nil slice, nil preserved, scalars by value); Go slice/append semantics "
                                   "(in place iff capacity allows) as Model/Heap.lean; the outer [][]int header array of MultiPolygon is held by value in the model",
-                                  "geometry-level mutators are compiled to slice operations in Model/HeapGeom.lean (validated by the correspondence)"],
+                                  "geometry-level mutators are compiled to slice operations in Model/HeapGeom.lean (validated by the correspondence)",
+                                  "regenerated tie: /verif/effects (SSA alias summary over /repo's current source) lists what each exported Clone's result may be or reach; "
+                                  "Tie.C16_clone_results_fresh (decide) requires the empty set for all nine Clone roots"],
         assumptions=["each slice of an object starts in its own array (sub-slices of one caller array are not generated)"],
     ),
     "C03": dict(
